@@ -60,6 +60,21 @@ func (tree *ParserT) parseString(qStart, qEnd rune, exec bool) ([]rune, error) {
 			value = append(value, r)
 			tree.crLf()
 
+		case r == '\\' && qEnd == '"':
+			// escaped character inside a double quoted string. This branch is
+			// only reached when exec == false (parseStringInfix handles the
+			// exec == true case), so keep both runes verbatim but do not let
+			// an escaped quote, eg "a\"b", terminate the string early.
+			value = append(value, r)
+			if tree.charPos+1 < len(tree.expression) {
+				tree.charPos++
+				r = tree.expression[tree.charPos]
+				value = append(value, r)
+				if r == '\n' {
+					tree.crLf()
+				}
+			}
+
 		case r == qEnd:
 			// end quote
 			goto endString
